@@ -63,6 +63,116 @@ func C11(c *core.Ctx) {
 			})
 		}
 		c.Floor("R11.7", "writes to the stream face's connection", nW, 1)
+
+		// ---- R11.10 the lock is held over the whole block, not over each buffer: where a
+		// loop hands the buffers of one block to the connection one by one (directly or
+		// through a helper that writes), the send lock is already held at that point of the
+		// loop — a lock taken and released per buffer keeps single writes apart and lets
+		// another sender's block in between two buffers of this one
+		isConnWrite := func(in ssa.Instruction) bool {
+			ci, ok := in.(ssa.CallInstruction)
+			if !ok || !ci.Common().IsInvoke() || ci.Common().Method.Name() != "Write" {
+				return false
+			}
+			return strings.Contains(types.TypeString(ci.Common().Value.Type(), nil), "net.Conn")
+		}
+		nL := 0
+		for _, fn := range p.FuncsIn(pkgF) {
+			if strings.HasSuffix(p.File(fn.Pos()), "_test.go") || core.FuncID(core.RootOf(fn)).Recv != "StreamFace" {
+				continue
+			}
+			core.Instrs(fn, func(in ssa.Instruction) {
+				if !core.InLoop(in.Block()) {
+					return
+				}
+				writes := isConnWrite(in)
+				if cl, ok := in.(*ssa.Call); ok && !writes {
+					if cal := cl.Call.StaticCallee(); cal != nil && cal.Blocks != nil && cal.Pkg != nil && cal.Pkg.Pkg.Path() == pkgF {
+						core.InstrsDeep(cal, func(x ssa.Instruction) {
+							if isConnWrite(x) {
+								writes = true
+							}
+						})
+					}
+				}
+				if !writes {
+					return
+				}
+				nL++
+				locked := false
+				for k := range held[fn][in] {
+					if strings.HasPrefix(k, "W:") && strings.Contains(k, "StreamFace.") {
+						locked = true
+					}
+				}
+				c.Decide(locked, "R11.10", fmt.Sprintf("send-lock-spans-the-block:%s#%d", core.FuncName(fn), nL), c.Pos(in), "the send lock is held where the loop passes a buffer of the block on", core.FuncName(fn)+" passes the buffers of one block to the connection in a loop without holding the send lock across the loop (the lock, if any, is taken per buffer): between two buffers of a block another goroutine's Send writes its own — the receiver sees one block split and another merged into it")
+			})
+		}
+		c.Floor("R11.10", "loops that pass the buffers of a block to the stream connection", nL, 1)
+	}
+	// ---- R11.11 "a length number need not be in its shortest form": the number decoder the
+	// de-framers use fails only when its byte source fails. Every error ReadTLNum returns is
+	// nil, the error ReadByte returned, or a sentinel variable standing for it (unexpected
+	// EOF) — never an error it makes up itself about the VALUE it has read: a decoder that
+	// refuses, say, a 3-octet form holding a number below 253 makes the stream de-framers
+	// (which read every failure of it as "bytes are missing") wait for ever, and ends a
+	// stream face, on a block the peer may send.
+	if rt := c.Fn("R11.11", "std/encoding", "", "ReadTLNum"); rt != nil {
+		nRet, nLeaf := 0, 0
+		bad := ""
+		var leaves func(v ssa.Value, seen map[ssa.Value]bool)
+		leaves = func(v ssa.Value, seen map[ssa.Value]bool) {
+			if seen[v] {
+				return
+			}
+			seen[v] = true
+			switch x := v.(type) {
+			case *ssa.Phi:
+				for _, e := range x.Edges {
+					leaves(e, seen)
+				}
+				return
+			case *ssa.Const:
+				if x.Value == nil {
+					nLeaf++
+					return
+				}
+			case *ssa.Extract:
+				if cl, ok := x.Tuple.(*ssa.Call); ok && cl.Call.IsInvoke() && cl.Call.Method.Name() == "ReadByte" {
+					nLeaf++
+					return
+				}
+			case *ssa.UnOp:
+				if _, isG := x.X.(*ssa.Global); isG && x.Op == token.MUL {
+					nLeaf++
+					return
+				}
+				if al, ok := x.X.(*ssa.Alloc); ok && x.Op == token.MUL {
+					// the named result kept in a cell: everything stored into it
+					for _, r := range *al.Referrers() {
+						if st, ok := r.(*ssa.Store); ok && st.Addr == ssa.Value(al) {
+							leaves(st.Val, seen)
+						}
+					}
+					return
+				}
+			}
+			if in, ok := v.(ssa.Instruction); ok {
+				bad = c.Pos(in) + " (" + v.String() + ")"
+			} else {
+				bad = v.String()
+			}
+		}
+		core.Instrs(rt, func(in ssa.Instruction) {
+			ret, ok := in.(*ssa.Return)
+			if !ok || len(ret.Results) != 2 {
+				return
+			}
+			nRet++
+			leaves(ret.Results[1], map[ssa.Value]bool{})
+		})
+		c.Decide(bad == "", "R11.11", "number-decoder-fails-only-with-its-source", c.P.Pos(rt.Pos()), fmt.Sprintf("%d returns; every error returned is nil, ReadByte's error or a sentinel variable (%d leaves)", nRet, nLeaf), "ReadTLNum returns an error of its own making at "+bad+", not the failure of its byte source: it refuses a number for its VALUE or form. The stream de-framers read every failure of ReadTLNum as an incomplete block and wait for more bytes (the face stalls for good), and StreamFace.Run ends the face — on a block whose length is not written in its shortest form, which a peer may send and every parser behind accepts")
+		c.Floor("R11.11", "returns of ReadTLNum", nRet, 2)
 	}
 	// ---- R11.9 a read() that ends inside a type or length number is an incomplete block, not
 	// an error: where a de-framer tells "bytes are missing" from other failures by comparing
